@@ -155,7 +155,7 @@ PROPS["C17"] = {
     "groups": [
         {"crate": "std", "quick": ["c17::"], "jobs": 8, "mem_gb": 6, "timeout_s": 600},
         # (b) Xen build: on-demand grant regions
-        {"crate": "xen", "quick": ["x17::ondemand_write", "x17::ondemand_atomic_store"], "thorough": ["x17::"], "jobs": 2, "mem_gb": 26, "timeout_s": 1800, "stubbed": True,
+        {"crate": "xen", "quick": ["x17::ondemand_write", "x17::ondemand_atomic_store", "x17::ub_null_base_add"], "thorough": ["x17::"], "jobs": 2, "mem_gb": 26, "timeout_s": 1800, "stubbed": True,
          "kani_flags": ["-Z", "restrict-vtable"], "unwindset": {"default": 1, "rules": _XEN_RULES}},
     ],
     "bounds": "(a) standard build: parent = every window of a 32-byte buffer, offset and element count unconstrained, element types u8,u16,u32,u64,u128,[u8;3],Le32",
@@ -279,7 +279,7 @@ PROPS["C14"] = {
     "groups": [
         # quick: every length<=2 script on the cheap forms, EINTR-first scripts and the guest level by representatives
         # (each of those is a 5-7 minute query); thorough: the complete length<=2 and length-3 grids on all six forms
-        {"crate": "std", "quick": ["c14::q_slice_read_exact::s_z", "c14::q_slice_read_exact::s_h", "c14::q_slice_read_exact::s_tz", "c14::q_slice_read_exact::s_th", "c14::q_slice_read_exact::s_ti", "c14::q_slice_read_exact::s_tt", "c14::q_slice_write_all::s_z", "c14::q_slice_write_all::s_h", "c14::q_slice_write_all::s_tz", "c14::q_slice_write_all::s_th", "c14::q_slice_write_all::s_ti", "c14::q_slice_write_all::s_tt", "c14::q_slice_read_exact::s_it", "c14::q_slice_read_exact::s_ih", "c14::q_slice_write_all::s_it", "c14::q_slice_read_upto", "c14::q_slice_write_upto", "c14::q_guest_read_upto::s_tt", "c14::q_guest_read_exact::s_it", "c14::q_guest_read_exact::s_tt"],
+        {"crate": "std", "quick": ["c14::q_slice_read_exact::s_z", "c14::q_slice_read_exact::s_h", "c14::q_slice_read_exact::s_tz", "c14::q_slice_read_exact::s_th", "c14::q_slice_read_exact::s_ti", "c14::q_slice_read_exact::s_tt", "c14::q_slice_write_all::s_z", "c14::q_slice_write_all::s_h", "c14::q_slice_write_all::s_tz", "c14::q_slice_write_all::s_th", "c14::q_slice_write_all::s_ti", "c14::q_slice_write_all::s_tt", "c14::q_slice_read_exact::s_it", "c14::q_slice_read_exact::s_ih", "c14::q_slice_write_all::s_it", "c14::q_slice_read_upto", "c14::q_slice_write_upto", "c14::t_slice_read_upto", "c14::t_slice_write_upto", "c14::q_guest_read_upto::s_tt", "c14::q_guest_read_exact::s_it", "c14::q_guest_read_exact::s_tt"],
          "thorough": ["c14::q_", "c14::t_"], "jobs": 6, "mem_gb": 10, "timeout_s": 1500, "timeout_thorough_s": 3600,
          "unwind_is_violation": True,
          "kani_flags": ["-Z", "restrict-vtable"],
